@@ -372,6 +372,7 @@ struct SharedLog
   std::mutex m;
   ws::SessionId sid = 0;
   int connects = 0;
+  bool armed = false;
   Outcome o;
 };
 
@@ -382,7 +383,11 @@ public:
   {
     setOnConnect([this](ws::SessionId sid, const std::string &)
                  {
+                   // iora listens with SO_REUSEPORT: a foreign client could reach this server. Only the
+                   // connection the harness announced (arm()) becomes the session under test.
                    std::lock_guard<std::mutex> g(log.m);
+                   if (!log.armed) return;
+                   log.armed = false;
                    log.sid = sid;
                    ++log.connects;
                    log.o = Outcome{};
@@ -413,6 +418,23 @@ public:
   }
   SharedLog log;
   int port = 0;
+
+  /// announce the next connection; returns the connect counter to compare with afterwards
+  int arm()
+  {
+    std::lock_guard<std::mutex> g(log.m);
+    log.armed = true;
+    log.sid = 0;
+    return log.connects;
+  }
+  /// did OUR server accept and upgrade the announced connection? (With SO_REUSEPORT another
+  /// process may share the port; then the answer came from a foreign listener.)
+  bool tookIt(int before, ws::SessionId &sid)
+  {
+    std::lock_guard<std::mutex> g(log.m);
+    sid = log.sid;
+    return log.connects == before + 1 && log.sid != 0;
+  }
 };
 
 /// one started server per harness process (starting/stopping costs > 50 ms)
@@ -682,8 +704,11 @@ LoopPlan drawPlan(pbt::Src &src, const Stream &s, bool allowAppClose)
       std::size_t cut;
       if (src.coin(2, 3))
       {
+        // strictly inside the header of a randomly chosen frame
         std::size_t fi = static_cast<std::size_t>(src.range(0, static_cast<std::int64_t>(s.starts.size()) - 1));
-        cut = s.starts[fi] + static_cast<std::size_t>(src.range(0, 13));
+        const auto &f = s.frames[fi];
+        std::size_t hl = 2 + (f.payload.size() > 0xFFFF ? 8 : f.payload.size() > 125 ? 2 : 0) + (f.masked ? 4 : 0);
+        cut = s.starts[fi] + static_cast<std::size_t>(src.range(1, static_cast<std::int64_t>(hl) - 1));
       }
       else
         cut = static_cast<std::size_t>(src.range(1, static_cast<std::int64_t>(s.wire.size()) - 1));
@@ -718,6 +743,9 @@ std::string describePlan(const LoopPlan &p)
   return o.str();
 }
 
+// Waiting for the endpoint's close frame only buys a synchronisation point; when it does not
+// come the case loses the checks that need one (label), it never fails - so this wait may be short.
+constexpr double kCloseWait = 10.0;
 const std::string kSentinel = std::string("\0SENTINEL-C18-end-of-case", 25);
 
 } // namespace
@@ -834,12 +862,6 @@ bool judgeLoopDeliveries(pbt::Case &c, const std::string &side, const Stream &s,
 {
   if (r.appClosed)
   {
-    // the application closed at an arbitrary point: what was delivered must be a prefix
-    if (!isPrefix(o.msgs, s.expect))
-    {
-      c.fail("C18/" + side + "/messages-differ", "delivered " + showMsgs(o.msgs) + " is not a prefix of " + showMsgs(s.expect) + " [" + seg + "]");
-      return false;
-    }
     if (s.hasInvalidText)
       for (auto &m : o.msgs)
         if (m.text && m.payload == s.invalidPayload)
@@ -847,6 +869,12 @@ bool judgeLoopDeliveries(pbt::Case &c, const std::string &side, const Stream &s,
           c.fail("C18/" + side + "/invalid-utf8-delivered", "a text message that is not UTF-8 was delivered over loopback [" + seg + "]");
           return false;
         }
+    // the application closed at an arbitrary point: what was delivered must be a prefix
+    if (!isPrefix(o.msgs, s.expect))
+    {
+      c.fail("C18/" + side + "/messages-differ", "delivered " + showMsgs(o.msgs) + " is not a prefix of " + showMsgs(s.expect) + " [" + seg + "]");
+      return false;
+    }
     return true;
   }
   Stream judged = s;
@@ -879,6 +907,41 @@ void labelPlan(pbt::Case &c, const Stream &s, const LoopPlan &plan, const LoopRe
 
 } // namespace
 
+namespace
+{
+/// raw connection to the loopback server incl. opening handshake; false => verdict already set
+bool connectAndUpgrade(pbt::Case &c, LoopServer &srv, c18net::RawConn &conn, const std::string &key, ws::SessionId &sid)
+{
+  const int before = srv.arm();
+  conn.fd = c18net::connectLoopback(srv.port, 60.0);
+  if (conn.fd < 0)
+  {
+    c.inconclusive("cannot connect to the server under test");
+    return false;
+  }
+  std::string why;
+  bool timedOut = false;
+  bool ok = c18net::clientHandshake(conn, key, why, nullptr, &timedOut);
+  if (!srv.tookIt(before, sid))
+  {
+    // nobody upgraded on OUR server: either it never saw the connection (a foreign listener shares
+    // the port through SO_REUSEPORT) or it did not answer in time
+    if (ok || !timedOut) c.inconclusive("the upgrade was not handled by the server under test (foreign listener on the port?): " + why);
+    else c.failTimed("C18/server/handshake-timeout", why);
+    return false;
+  }
+  if (!ok)
+  {
+    if (timedOut) c.failTimed("C18/server/handshake-timeout", why);
+    else c.fail("C18/server/handshake", why);
+    return false;
+  }
+  conn.peerFd = c18net::findPeerFd(conn.fd);
+  if (conn.peerFd >= 0) c.label("read barrier exact (endpoint descriptor found)");
+  return true;
+}
+} // namespace
+
 // ---------------------------------------------------------------------------- server_wire
 PBT_PROPERTY(server_wire)
 {
@@ -899,25 +962,8 @@ PBT_PROPERTY(server_wire)
   labelStream(c, s);
 
   c18net::RawConn conn;
-  conn.fd = c18net::connectLoopback(srv->port);
-  if (conn.fd < 0)
-  {
-    c.inconclusive("cannot connect to the server under test");
-    return;
-  }
-  std::string key = randomKey(src);
-  if (!c18net::clientHandshake(conn, key, why))
-  {
-    c.fail("C18/server/handshake", why);
-    return;
-  }
-  ws::SessionId sid;
-  {
-    std::lock_guard<std::mutex> g(srv->log.m);
-    sid = srv->log.sid;
-  }
-  conn.peerFd = c18net::findPeerFd(conn.fd);
-  if (conn.peerFd >= 0) c.label("read barrier exact (endpoint descriptor found)");
+  ws::SessionId sid = 0;
+  if (!connectAndUpgrade(c, *srv, conn, randomKey(src), sid)) return;
 
   LoopEndpoint ep;
   ep.appSend = [&](const AppSend &a)
@@ -954,7 +1000,7 @@ PBT_PROPERTY(server_wire)
   // point: frames leave in order, so everything it sent before has arrived when the close frame
   // has. Only then is our side of the connection shut down - replies to a peer that has already
   // sent FIN may be dropped by the transport, which is not C18's business.
-  if (conn.readUntil([&] { return wireHasClose(conn.rx); }, 30.0)) synced = true;
+  if (conn.readUntil([&] { return wireHasClose(conn.rx); }, kCloseWait)) synced = true;
   else c.label("no close frame from the server");
   conn.shutdownWrite();
   bool sawEof = conn.readUntil([&] { return conn.eof; }, 30.0);
@@ -989,12 +1035,14 @@ struct ClientUnderTest
   std::shared_ptr<ws::WebSocketClient> cl;
   std::shared_ptr<SharedLog> log = std::make_shared<SharedLog>();
   c18net::RawConn conn;
+  bool timed = false; // the failure is a bounded wait (connect() gave up), not a wrong answer
 
   /// create a client, let it connect to the raw listener and complete the opening handshake
   bool start(std::string &why, bool &harnessSide)
   {
     quietLogs();
     harnessSide = false;
+    timed = false;
     c18net::RawListener &lst = rawListener();
     if (lst.port <= 0)
     {
@@ -1049,7 +1097,8 @@ struct ClientUnderTest
     }
     if (!connected)
     {
-      why = "the raw server answered 101 with the correct Sec-WebSocket-Accept but connect() returned false";
+      why = "the raw server answered 101 with the correct Sec-WebSocket-Accept but connect() returned false (30 s timeout)";
+      timed = true;
       return false;
     }
     conn.peerFd = c18net::findPeerFd(conn.fd);
@@ -1094,6 +1143,7 @@ PBT_PROPERTY(client_wire)
   if (!cut.start(why, harnessSide))
   {
     if (harnessSide) c.inconclusive(why);
+    else if (cut.timed) c.failTimed("C18/client/handshake-timeout", why);
     else c.fail("C18/client/handshake", why);
     return;
   }
@@ -1131,7 +1181,7 @@ PBT_PROPERTY(client_wire)
   }
   // the client's own close frame (echo, 1007 or the application's) is the other synchronisation
   // point: frames are sent in order, so everything before it has arrived when it has
-  if (conn.readUntil([&] { return wireHasClose(conn.rx); }, r.closing && !r.appClosed && s.hasInvalidText && !s.hasClose ? 10.0 : 30.0)) synced = true;
+  if (conn.readUntil([&] { return wireHasClose(conn.rx); }, kCloseWait)) synced = true;
   else c.label("no close frame from the client");
   cut.cl->disconnect(); // joins the client's I/O thread: every callback has returned afterwards
   conn.readUntil([&] { return conn.eof; }, 30.0);
@@ -1283,22 +1333,8 @@ PBT_PROPERTY(server_close_race)
   RacePlan p = drawRace(src);
   c.describe("server: " + describeRace(p));
   c18net::RawConn conn;
-  conn.fd = c18net::connectLoopback(srv->port);
-  if (conn.fd < 0)
-  {
-    c.inconclusive("cannot connect to the server under test");
-    return;
-  }
-  if (!c18net::clientHandshake(conn, randomKey(src), why))
-  {
-    c.fail("C18/server/handshake", why);
-    return;
-  }
-  ws::SessionId sid;
-  {
-    std::lock_guard<std::mutex> g(srv->log.m);
-    sid = srv->log.sid;
-  }
+  ws::SessionId sid = 0;
+  if (!connectAndUpgrade(c, *srv, conn, randomKey(src), sid)) return;
   std::string triggerBytes;
   if (p.trigger == 1) triggerBytes = refws::encode(maskedFrame(src, refws::OpClose, std::string("\x03\xe8", 2), true));
   if (p.trigger == 2) triggerBytes = refws::encode(maskedFrame(src, refws::OpText, kInvalidText, true));
@@ -1314,7 +1350,7 @@ PBT_PROPERTY(server_close_race)
       if (p.trigger == 0) srv->sendClose(sid, 1001, "going away");
       else conn.writeAll(triggerBytes.data(), triggerBytes.size());
     });
-  conn.readUntil([&] { return wireHasClose(conn.rx); }, 30.0);
+  conn.readUntil([&] { return wireHasClose(conn.rx); }, kCloseWait);
   conn.shutdownWrite();
   conn.readUntil([&] { return conn.eof; }, 30.0);
   c.nontrivial(pbt::hash64(describeRace(p)));
@@ -1339,6 +1375,7 @@ PBT_PROPERTY(client_close_race)
   if (!cut.start(why, harnessSide))
   {
     if (harnessSide) c.inconclusive(why);
+    else if (cut.timed) c.failTimed("C18/client/handshake-timeout", why);
     else c.fail("C18/client/handshake", why);
     return;
   }
@@ -1358,7 +1395,7 @@ PBT_PROPERTY(client_close_race)
       if (p.trigger == 0) cut.cl->sendClose(1001, "going away");
       else conn.writeAll(triggerBytes.data(), triggerBytes.size());
     });
-  conn.readUntil([&] { return wireHasClose(conn.rx); }, 30.0);
+  conn.readUntil([&] { return wireHasClose(conn.rx); }, kCloseWait);
   cut.cl->disconnect();
   conn.readUntil([&] { return conn.eof; }, 30.0);
   c.nontrivial(pbt::hash64(describeRace(p)));
@@ -2172,6 +2209,7 @@ PBT_REGRESSION(client_data_after_close)
   if (!cut.start(why, harnessSide))
   {
     if (harnessSide) c.inconclusive(why);
+    else if (cut.timed) c.failTimed("C18/client/handshake-timeout", why);
     else c.fail("C18/client/handshake", why);
     return;
   }
@@ -2180,7 +2218,7 @@ PBT_REGRESSION(client_data_after_close)
   cut.cl->sendClose(1000, "bye");
   cut.cl->sendText("after");
   cut.cl->sendBinary({1, 2, 3});
-  cut.conn.readUntil([&] { return wireHasClose(cut.conn.rx); }, 30.0);
+  cut.conn.readUntil([&] { return wireHasClose(cut.conn.rx); }, kCloseWait);
   cut.cl->disconnect();
   cut.conn.readUntil([&] { return cut.conn.eof; }, 30.0);
   std::vector<AppSend> sends = {{'t', "before", true}, {'c', "", true}, {'t', "after", false}, {'b', std::string("\x01\x02\x03", 3), false}};
@@ -2198,27 +2236,104 @@ PBT_REGRESSION(server_data_after_close)
     return;
   }
   c18net::RawConn conn;
-  conn.fd = c18net::connectLoopback(srv->port);
-  if (conn.fd < 0 || !c18net::clientHandshake(conn, "dGhlIHNhbXBsZSBub25jZQ==", why))
-  {
-    c.fail("C18/server/handshake", why);
-    return;
-  }
-  ws::SessionId sid;
-  {
-    std::lock_guard<std::mutex> g(srv->log.m);
-    sid = srv->log.sid;
-  }
+  ws::SessionId sid = 0;
+  if (!connectAndUpgrade(c, *srv, conn, "dGhlIHNhbXBsZSBub25jZQ==", sid)) return;
   c.describe("server: sendText(\"before\"); sendClose(1000); sendText(\"after\"); sendBinary({1,2,3})");
   srv->sendText(sid, "before");
   srv->sendClose(sid, 1000, "bye");
   srv->sendText(sid, "after");
   srv->sendBinary(sid, {1, 2, 3});
-  conn.readUntil([&] { return wireHasClose(conn.rx); }, 30.0);
+  conn.readUntil([&] { return wireHasClose(conn.rx); }, kCloseWait);
   conn.shutdownWrite();
   conn.readUntil([&] { return conn.eof; }, 30.0);
   std::vector<AppSend> sends = {{'t', "before", true}, {'c', "", true}, {'t', "after", false}, {'b', std::string("\x01\x02\x03", 3), false}};
   judgeWire(c, "server", conn.rx, conn.eof, {}, {}, sends, "", false);
+}
+
+PBT_REGRESSION(server_pong_echoes_payload)
+{
+  pbt::watchdog(120, "C18/server/loopback-stalled");
+  std::string why;
+  LoopServer *srv = loopServer(why);
+  if (!srv)
+  {
+    c.inconclusive("could not start a WebSocketServer: " + why);
+    return;
+  }
+  c18net::RawConn conn;
+  ws::SessionId sidUnused = 0;
+  if (!connectAndUpgrade(c, *srv, conn, "dGhlIHNhbXBsZSBub25jZQ==", sidUnused)) return;
+  std::vector<std::string> pings = {"hb-1", std::string(125, '\x7f'), std::string(), std::string("\x00\xff\x80", 3)};
+  c.describe("server <- TEXT(!fin) PING hb-1 PING 125x7f CONT(fin) PING empty PING 00ff80, cut inside the second ping's header");
+  std::uint8_t key[4] = {0x10, 0x20, 0x30, 0x40};
+  auto fr = [&](std::uint8_t op, bool fin, const std::string &pl)
+  {
+    refws::Frame f;
+    f.opcode = op;
+    f.fin = fin;
+    f.masked = true;
+    std::memcpy(f.key, key, 4);
+    f.payload = pl;
+    return refws::encode(f);
+  };
+  std::string wire = fr(refws::OpText, false, "a") + fr(refws::OpPing, true, pings[0]);
+  std::size_t cut = wire.size() + 3;
+  wire += fr(refws::OpPing, true, pings[1]) + fr(refws::OpCont, true, "b") + fr(refws::OpPing, true, pings[2]) + fr(refws::OpPing, true, pings[3]);
+  conn.writeSegment(std::string_view(wire).substr(0, cut));
+  conn.writeSegment(std::string_view(wire).substr(cut));
+  conn.writeSegment(fr(refws::OpPing, true, kSentinel));
+  if (!conn.readUntil([&] { return sentinelOrVerdict(conn.rx, kSentinel, pings.size()); }, 30.0))
+  {
+    c.failTimed("C18/server/ping-unanswered", "pings were not answered within 30 s");
+    return;
+  }
+  conn.writeSegment(fr(refws::OpClose, true, std::string("\x03\xe8", 2)));
+  conn.readUntil([&] { return wireHasClose(conn.rx); }, kCloseWait);
+  conn.shutdownWrite();
+  conn.readUntil([&] { return conn.eof; }, 30.0);
+  judgeWire(c, "server", conn.rx, conn.eof, pings, {}, {}, kSentinel, false);
+}
+
+PBT_REGRESSION(client_pong_echoes_payload)
+{
+  pbt::watchdog(120, "C18/client/loopback-stalled");
+  ClientUnderTest cut;
+  std::string why;
+  bool harnessSide = false;
+  if (!cut.start(why, harnessSide))
+  {
+    if (harnessSide) c.inconclusive(why);
+    else if (cut.timed) c.failTimed("C18/client/handshake-timeout", why);
+    else c.fail("C18/client/handshake", why);
+    return;
+  }
+  c18net::RawConn &conn = cut.conn;
+  std::vector<std::string> pings = {"hb-1", std::string(125, '\x7f'), std::string(), std::string("\x00\xff\x80", 3)};
+  c.describe("client <- BIN(!fin) PING hb-1 PING 125x7f CONT(fin) PING empty PING 00ff80, cut inside the second ping's header");
+  auto fr = [&](std::uint8_t op, bool fin, const std::string &pl)
+  {
+    refws::Frame f;
+    f.opcode = op;
+    f.fin = fin;
+    f.payload = pl;
+    return refws::encode(f);
+  };
+  std::string wire = fr(refws::OpBinary, false, "a") + fr(refws::OpPing, true, pings[0]);
+  std::size_t cutAt = wire.size() + 1;
+  wire += fr(refws::OpPing, true, pings[1]) + fr(refws::OpCont, true, "b") + fr(refws::OpPing, true, pings[2]) + fr(refws::OpPing, true, pings[3]);
+  conn.writeSegment(std::string_view(wire).substr(0, cutAt));
+  conn.writeSegment(std::string_view(wire).substr(cutAt));
+  conn.writeSegment(fr(refws::OpPing, true, kSentinel));
+  if (!conn.readUntil([&] { return sentinelOrVerdict(conn.rx, kSentinel, pings.size()); }, 30.0))
+  {
+    c.failTimed("C18/client/ping-unanswered", "pings were not answered within 30 s");
+    return;
+  }
+  conn.writeSegment(fr(refws::OpClose, true, std::string("\x03\xe8", 2)));
+  conn.readUntil([&] { return wireHasClose(conn.rx); }, kCloseWait);
+  cut.cl->disconnect();
+  conn.readUntil([&] { return conn.eof; }, 30.0);
+  judgeWire(c, "client", conn.rx, conn.eof, pings, {}, {}, kSentinel, true);
 }
 
 PBT_REGRESSION(server_ping_length_code_126)
